@@ -102,7 +102,10 @@ def invocation(env, case, img, cfg):
     if name == 'e2image -ra': return [t.e2image, '-ra', img, out], None
     if name == 'e2image meta': return [t.e2image, img, out], None
     if name == 'e2freefrag': return [t.e2freefrag] + (['-c', '16'] if sub % 2 else []) + [img], None
-    if name == 'mke2fs -n': return [t.mke2fs, '-n', '-F'] + (['-t', 'ext4', '-b', '4096'] if sub % 2 else []) + [img], None
+    if name == 'mke2fs -n':
+        # dry run with every kind of option that makes a real run touch the device early: explicit discard, zeroing of inode tables / journal, a label, an undo file request, a root directory
+        extra = [[], ['-E', 'discard'], ['-E', 'nodiscard'], ['-E', 'discard,lazy_itable_init=0,lazy_journal_init=0'], ['-L', 'dry'], ['-E', 'discard', '-q'], ['-O', 'quota', '-E', 'discard'], ['-j', '-E', 'discard']][(sub // 2) % 8]
+        return [t.mke2fs, '-n', '-F'] + (['-t', 'ext4', '-b', '4096'] if sub % 2 else []) + extra + [img], None
     if name == 'e2undo -n':
         # an undo file recorded against this very image (on a scratch copy, then the copy's result is moved in place so the undo file matches the target)
         u = os.path.join(d, 'c13.e2undo')
